@@ -2,9 +2,10 @@
 # usage: ./check.sh <property> quick|thorough      run the check (rebuilds from /repo's current tree)
 #        ./check.sh <property> --replay <file>     replay a violation file
 # exit 0 held / 1 VIOLATION / 2 harness or build trouble
-cd /verif || exit 2
+V=$(cd "$(dirname "$0")" && pwd); export VERIF_ROOT=$V
+cd "$V" || exit 2
 P=${1:?property}; T=${2:-quick}
-B=/verif/.build/$P; mkdir -p /verif/.build
+B=$V/.build/$P; mkdir -p "$V/.build"
 if ! scripts/build.sh "$B" > "$B.buildlog" 2>&1; then
   mkdir -p "$B"; cat "$B.buildlog" >&2
   echo "HARNESS-TROUBLE property=$P: build failed" >&2
